@@ -216,6 +216,15 @@ Theorem over_sampled_grid_spec (M : RM) subs : ps_ok (mps M) ->
   over_sampled_grid M subs = shift (morg M) (rel_over (mk M) (mps M) subs).
 Proof. intros Hps. apply over_sampled_spec; assumption. Qed.
 
+Theorem subtracted_from_translates (d : RP) (M : RM) (off : RP) : ps_ok (mps M) ->
+  subtracted_mask (translate d M) off = translate d (subtracted_mask M off) /\
+  subtracted_grid (translate d M) off = shift d (subtracted_grid M off).
+Proof.
+  intros Hps. split.
+  - unfold subtracted_mask, translate; cbn [mk mps morg]. f_equal. destruct (morg M), d, off; unf. apply pt_eq; ring.
+  - unfold subtracted_grid. rewrite from_mask_translates by assumption. unfold shift. rewrite !map_map. apply map_ext.
+    intros p. destruct p, d, off; unf. apply pt_eq; ring.
+Qed.
 Theorem mask_centre_translates (d : RP) (M : RM) : ps_ok (mps M) ->
   mask_centre (translate d M) = oshift d (mask_centre M).
 Proof. intros Hps. unfold mask_centre. rewrite from_mask_translates by assumption. apply grid_centre_shift. Qed.
@@ -505,6 +514,10 @@ Section ExportM.
   Proof. apply over_sampled_grid_translates, Hps. Qed.
   Lemma x_over_sampled_grid_spec subs : over_sampled_grid M subs = shift (morg M) (rel_over (mk M) (mps M) subs).
   Proof. apply over_sampled_grid_spec, Hps. Qed.
+  Lemma x_subtracted_from_translates d off :
+    subtracted_mask (translate d M) off = translate d (subtracted_mask M off) /\
+    subtracted_grid (translate d M) off = shift d (subtracted_grid M off).
+  Proof. apply subtracted_from_translates, Hps. Qed.
   Lemma x_mask_centre_translates d : mask_centre (translate d M) = oshift d (mask_centre M).
   Proof. apply mask_centre_translates, Hps. Qed.
   Lemma x_zoom_centre_invariant d : zoom_centre (translate d M) = zoom_centre M.
